@@ -18,7 +18,8 @@ def SPEC(tier):
             c.flags.append('-DOPS_WITH_MEDIUMP')
     else:
         cfgs += [simd_cfg('sse2-gcc', ['-msse2'], 'g++'), simd_cfg('sse41-clang', ['-msse4.1'], 'clang++'), simd_cfg('avx-clang', ['-mavx'], 'clang++'), simd_cfg('avx2-gcc', ['-mavx2'], 'g++'),
-                 simd_cfg('avx2fma-clang', ['-mavx2', '-mfma', '-DGLM_FORCE_FMA'], 'clang++')]
+                 simd_cfg('avx2fma-clang', ['-mavx2', '-mfma', '-DGLM_FORCE_FMA'], 'clang++'),
+                 simd_cfg('avx2-wxyz-gcc', ['-mavx2', '-DGLM_FORCE_QUAT_DATA_WXYZ'], 'g++')]
     if tier != 'thorough':
         # the mediump qualifier has SIMD specialisations of its own (e.g. outerProduct<4,4,float,aligned_mediump>): the quick tier carries
         # it in the pure and the AVX2 library (operations are matched by name, so the other libraries simply lack those instances)
